@@ -120,8 +120,8 @@ Qed.
 Lemma struct_of_in : forall s g fs, struct_of M s = Some (g, fs) -> exists p, In (IStruct p s g fs) M.
 Proof.
   induction M as [| d M' IH]; intros s g fs H; cbn in H; [discriminate H |].
-  destruct d as [p x t | p x t | p f ps r | p s' g' fs'].
-  1-3: destruct (IH _ _ _ H) as [p0 Hp]; exists p0; right; auto.
+  destruct d as [p x t | p x t | p f ps r | p s' g' fs' | c0 s0 fs0].
+  1-3, 5: destruct (IH _ _ _ H) as [p0 Hp]; exists p0; right; auto.
   destruct (Nat.eqb s s') eqn:E.
   - apply Nat.eqb_eq in E; subst. inversion H; subst. exists p; left; auto.
   - destruct (IH _ _ _ H) as [p0 Hp]; exists p0; right; auto.
@@ -447,7 +447,9 @@ Lemma ck_assignidx_eq : forall F G d r x i e, ck_stmt Q M F G d r (SAssignIdx x 
    (rs_ident G x ++ rs_expr G i ++ rs_expr G e) ++ tcs_stmt Q M (q_tc_by_name Q) F G r (SAssignIdx x i e), G).
 Proof. reflexivity. Qed.
 Lemma ck_assignfield_eq : forall F G d r f x e, ck_stmt Q M F G d r (SAssignField f x e) =
-  ((pt_expr F G e ++ match lookup G x with Some (BVar _) | None => [] | Some _ => [DConstAssign] end) ++
+  ((pt_expr F G e ++
+    (if q_field_name_lookup Q then match lookup G f with Some (BVar _) | None => [] | Some _ => [DConstAssign] end else []) ++
+    match lookup G x with Some (BVar _) | None => [] | Some _ => [DConstAssign] end) ++
    (rs_ident G x ++ rs_expr G e) ++ tcs_stmt Q M (q_tc_by_name Q) F G r (SAssignField f x e), G).
 Proof. reflexivity. Qed.
 Lemma ck_foreach_eq : forall F G d r a t x e b, ck_stmt Q M F G d r (SForEach a t x e b) =
@@ -733,7 +735,7 @@ Proof.
   - (* SAssignField *)
     intros f x e G d r G' H Hg. rewrite ck_assignfield_eq in H. cbn in Hg. apply andb_true_iff in Hg as [Hge Hgf].
     injection H as Hd <-. apply app_nil2 in Hd as [Hp Hd]. apply app_nil2 in Hd as [Hr Ht].
-    apply app_nil2 in Hp as [Hpe Hc]. apply app_nil2 in Hr as [Hx Hre].
+    apply app_nil2 in Hp as [Hpe Hc]. apply app_nil2 in Hc as [_ Hc]. apply app_nil2 in Hr as [Hx Hre].
     rewrite tcs_assignfield_eq in Ht. destruct (tc_expr Q M F G e) as [t0 d0] eqn:Ee.
     destruct (tc_expr Q M F G (EField f (EVar x))) as [tf df] eqn:Ef.
     apply app_nil2 in Ht as [-> Ht]. apply app_nil2 in Ht as [-> Ht]. apply app_nil2 in Ht as [H1 H2].
@@ -921,22 +923,19 @@ Qed.
 End Sound.
 
 (* ---- imports ------------------------------------------------------------------------------------ *)
-Lemma import_fold_mono : forall l ds0 G F ds1 G1 F1,
-  fold_left ck_import_decl l (ds0, G, F) = (ds1, G1, F1) -> ds1 = [] -> ds0 = [].
+Lemma import_fold_mono : forall M l ds0 G F ds1 G1 F1,
+  fold_left (ck_import_decl M) l (ds0, G, F) = (ds1, G1, F1) -> ds1 = [] -> ds0 = [].
 Proof.
-  induction l as [| d l IH]; intros ds0 G F ds1 G1 F1 H Hn; cbn in H.
+  intros M; induction l as [| d l IH]; intros ds0 G F ds1 G1 F1 H Hn; cbn in H.
   - injection H as -> _ _; auto.
   - destruct (insert G (idecl_name d) (idecl_binding d)) as [G' dd] eqn:Ei.
     apply IH in H; auto. apply app_eq_nil in H as [H _]; auto.
 Qed.
 
-Lemma idecl_fun_rev : forall d, rev (idecl_fun d) = idecl_fun d.
-Proof. intros [| | |]; reflexivity. Qed.
-
-Lemma import_fold_ok : forall l sc F0 G1 F1,
-  fold_left ck_import_decl l ([], [sc], F0) = ([], G1, F1) ->
+Lemma import_fold_ok : forall M l sc F0 G1 F1,
+  fold_left (ck_import_decl M) l ([], [sc], F0) = ([], G1, F1) ->
   G1 = [rev (map (fun d => (idecl_name d, idecl_binding d)) l) ++ sc] /\
-  F1 = rev (flat_map idecl_fun l) ++ F0 /\
+  F1 = rev (flat_map (idecl_fun M) l) ++ F0 /\
   NoDup (map idecl_name l) /\ (forall d, In d l -> assoc (idecl_name d) sc = None).
 Proof.
   induction l as [| d l IH]; intros sc F0 G1 F1 H; cbn in H.
@@ -946,7 +945,7 @@ Proof.
     + cbn [bind app] in H. apply IH in H as [-> [-> [Hnd Hfresh]]].
       repeat split.
       * cbn. rewrite <- app_assoc. reflexivity.
-      * cbn. rewrite rev_app_distr, idecl_fun_rev, <- app_assoc. reflexivity.
+      * cbn. rewrite rev_app_distr, <- app_assoc. reflexivity.
       * cbn. constructor; auto. intros Hin. apply in_map_iff in Hin as [d' [Hn Hd']].
         specialize (Hfresh d' Hd'). cbn in Hfresh. rewrite Hn, Nat.eqb_refl in Hfresh. discriminate Hfresh.
       * intros d' [<- | Hd']; auto. specialize (Hfresh d' Hd'). cbn in Hfresh.
@@ -973,12 +972,12 @@ Qed.
 
 Lemma import_names_ok : forall M xs st G1 F1,
   fold_left (ck_import_name M) xs st = ([], G1, F1) -> fst (fst st) = [] ->
-  exists ds, find_all_pub M xs = Some ds /\ fold_left ck_import_decl ds st = ([], G1, F1).
+  exists ds, find_all_pub M xs = Some ds /\ fold_left (ck_import_decl M) ds st = ([], G1, F1).
 Proof.
   intros M; induction xs as [| x xs IH]; intros [[ds0 G] F] G1 F1 H H0; cbn in H0; subst ds0; cbn in H.
   - exists []; split; auto.
   - unfold ck_import_name in H at 2. destruct (find_pub M x) as [d|] eqn:Ef.
-    + destruct (ck_import_decl ([], G, F) d) as [[ds' G'] F'] eqn:Ed.
+    + destruct (ck_import_decl M ([], G, F) d) as [[ds' G'] F'] eqn:Ed.
       assert (ds' = []) as -> by (eapply import_names_mono; eauto).
       apply IH in H as [ds [Hall Hfold]]; auto. exists (d :: ds); split.
       * cbn. rewrite Ef, Hall. reflexivity.
@@ -996,7 +995,7 @@ Proof.
 Qed.
 
 Lemma ck_import_sound : forall M i G0 F0, ck_import M i = ([], G0, F0) ->
-  exists ds, import_decls M i = Some ds /\ G0 = [scope_of_decls ds] /\ F0 = funs_of_decls ds.
+  exists ds, import_decls M i = Some ds /\ G0 = [scope_of_decls ds] /\ F0 = funs_of_decls M ds.
 Proof.
   intros M i G0 F0 H. destruct i as [| | xs]; cbn in H.
   - injection H as <- <-. exists []; repeat split.
@@ -1062,12 +1061,57 @@ Proof.
   intros p; unfold guard. apply forallb_forall. intros [f|s] _; cbn; apply guard_patched_stmt.
 Qed.
 
+Lemma guard_current_expr : forall M,
+  (forall e, gd_expr current M e = true) /\ (forall a, gd_args current M a = true).
+Proof.
+  intros M; apply expr_args_ind; intros; try reflexivity.
+  - change (gd_expr current M (EUn o e)) with (gd_expr current M e); auto.
+  - change (gd_expr current M (EBin o l r)) with (gd_expr current M l && gd_expr current M r && true).
+    rewrite H, H0; reflexivity.
+  - change (gd_expr current M (ECast e t)) with (gd_expr current M e); auto.
+  - change (gd_expr current M (EField f e)) with (gd_expr current M e && true). rewrite H; reflexivity.
+  - change (gd_expr current M (ECall f a)) with (gd_args current M a); auto.
+  - change (gd_expr current M (ESlice l i j)) with (gd_expr current M l && gd_expr current M i && gd_expr current M j).
+    rewrite H, H0, H1; reflexivity.
+  - change (gd_expr current M (EList e a)) with (gd_expr current M e && gd_args current M a). rewrite H, H0; reflexivity.
+  - change (gd_args current M (ACons e a)) with (gd_expr current M e && gd_args current M a). rewrite H, H0; reflexivity.
+Qed.
+
+Lemma guard_current_stmt : forall M,
+  (forall s, gd_stmt current M s = true) /\ (forall b, gd_block current M b = true).
+Proof.
+  intros M; destruct (guard_current_expr M) as [He Ha]; apply stmt_block_ind; intros; try reflexivity.
+  - change (gd_stmt current M (SVar a t x e)) with (gd_expr current M e && true). rewrite He; reflexivity.
+  - change (gd_stmt current M (SAssign x e)) with (gd_expr current M e). auto.
+  - change (gd_stmt current M (SAssignIdx x i e)) with (gd_expr current M i && gd_expr current M e). rewrite !He; reflexivity.
+  - change (gd_stmt current M (SAssignField f x e)) with (gd_expr current M e && true). rewrite He; reflexivity.
+  - change (gd_stmt current M (SIf c th el)) with (gd_expr current M c && gd_block current M th && gd_block current M el).
+    rewrite He, H, H0; reflexivity.
+  - change (gd_stmt current M (SWhile c b)) with (gd_expr current M c && gd_block current M b). rewrite He, H; reflexivity.
+  - change (gd_stmt current M (SFor a t x from to step b)) with
+      (gd_expr current M from && gd_expr current M to && gd_opt current M step && gd_block current M b && true).
+    rewrite !He, H. destruct step; cbn [gd_opt]; rewrite ?He; reflexivity.
+  - change (gd_stmt current M (SForEach a t x e b)) with (gd_expr current M e && gd_block current M b). rewrite He, H; reflexivity.
+  - change (gd_stmt current M (SRepeat b n)) with (gd_block current M b && gd_expr current M n). rewrite He, H; reflexivity.
+  - change (gd_stmt current M (SDoWhile b c)) with (gd_block current M b && gd_expr current M c). rewrite He, H; reflexivity.
+  - destruct e as [e|]; [| reflexivity].
+    change (gd_stmt current M (SReturn (Some e))) with (gd_expr current M e && true). rewrite He; reflexivity.
+  - change (gd_stmt current M (SBlock b)) with (gd_block current M b). auto.
+  - change (gd_stmt current M (SCall f a)) with (gd_args current M a). auto.
+  - change (gd_block current M (BCons s b)) with (gd_stmt current M s && gd_block current M b). rewrite H, H0; reflexivity.
+Qed.
+
+Lemma guard_current : forall p, guard current p = true.
+Proof.
+  intros p; unfold guard. apply forallb_forall. intros [f|s] _; cbn; apply guard_current_stmt.
+Qed.
+
 (* the frontend as it is now (all four repairs) never accepts an ill-formed core program *)
 Theorem check_patched_sound : forall p, check_patched p = [] -> wf p.
 Proof. intros p H; apply (check_with_sound patched); auto using guard_patched. Qed.
 
 Theorem check_sound : forall p, check p = [] -> wf p.
-Proof. exact check_patched_sound. Qed.
+Proof. intros p H; apply (check_with_sound current); auto using guard_current. Qed.
 
 (* the pinned frontend was sound only on programs where its quirks do not matter *)
 Theorem check_pinned_sound_partial : forall p, check_pinned p = [] -> quirk_free p = true -> wf p.
@@ -1118,12 +1162,12 @@ Qed.
 
 (* each quirk alone suffices (the other three patched) *)
 Definition only (i : nat) : quirks :=
-  {| q_void_eq := Nat.eqb i 0; q_void_ret := Nat.eqb i 1; q_tc_by_name := Nat.eqb i 2; q_field_unimported := Nat.eqb i 3 |}.
+  {| q_void_eq := Nat.eqb i 0; q_void_ret := Nat.eqb i 1; q_tc_by_name := Nat.eqb i 2; q_field_unimported := Nat.eqb i 3; q_field_name_lookup := false |}.
 
 (* the loop-bound witness needs two of them: the resolver's misplaced resolution is only harmless while `gleich`
    rejects operands without a type *)
 Definition void_eq_and_by_name : quirks :=
-  {| q_void_eq := true; q_void_ret := false; q_tc_by_name := true; q_field_unimported := false |}.
+  {| q_void_eq := true; q_void_ret := false; q_tc_by_name := true; q_field_unimported := false; q_field_name_lookup := false |}.
 
 Lemma each_quirk_unsound :
   check_with (only 0) w_void_eq = [] /\ check_with (only 1) w_void_ret = [] /\
